@@ -249,3 +249,69 @@ Proof.
   rewrite (G (List.length fmt) fmt [] _ (le_n _) Hv Hn); [reflexivity|].
   unfold sf_bound. lia.
 Qed.
+
+(** * One step of the iterator on a documented specifier followed by arbitrary (valid) input *)
+Lemma str_from_1 c s : head_ok s = true -> str_from (c :: s) 1 = Val s.
+Proof.
+  intros H. destruct s as [|b s']; [vm_compute; reflexivity|]. cbn [head_ok] in H.
+  unfold str_from, is_char_boundary. change (1 =? 0) with false. change (1 <? 0) with false.
+  change (Z.to_nat 1) with 1%nat. cbn [nth_z_aux skipn]. rewrite H. reflexivity.
+Qed.
+Lemma str_from_2 c1 c2 s : head_ok s = true -> str_from (c1 :: c2 :: s) 2 = Val s.
+Proof.
+  intros H. destruct s as [|b s']; [vm_compute; reflexivity|]. cbn [head_ok] in H.
+  unfold str_from, is_char_boundary. change (2 =? 0) with false. change (2 <? 0) with false.
+  change (Z.to_nat 2) with 2%nat. cbn [nth_z_aux skipn]. rewrite H. reflexivity.
+Qed.
+Lemma str_from_3 c1 c2 c3 s : head_ok s = true -> str_from (c1 :: c2 :: c3 :: s) 3 = Val s.
+Proof.
+  intros H. destruct s as [|b s']; [vm_compute; reflexivity|]. cbn [head_ok] in H.
+  unfold str_from, is_char_boundary. change (3 =? 0) with false. change (3 <? 0) with false.
+  change (Z.to_nat 3) with 3%nat. cbn [nth_z_aux skipn]. rewrite H. reflexivity.
+Qed.
+Arguments str_from : simpl never.
+Arguments str_to : simpl never.
+Arguments head_ok : simpl never.
+
+(* the documentation-level tokens of one table row under a modifier *)
+Definition row_is_err (e : entry) (m : bytes) : bool :=
+  match e, m with ENum _ _, _ => false | _, [] => false | _, _ => true end.
+Definition row_toks (comp : bytes -> list tok) (e : entry) (m : bytes) : list tok :=
+  match e, m with
+  | ENum f p, [] => [KNum f p]
+  | ENum f p0, c :: _ => match modifier c with Some p => [KNum f p] | None => [KNum f p0] end
+  | EText f, _ => [KFix f]
+  | ELit t, _ => [KText t]
+  | EComposite x, _ => comp x
+  end.
+
+Ltac hd_solve := first [assumption | reflexivity].
+Ltac sf_step :=
+  repeat (progress (unfold parse_spec, sf_next_char, sf_error; cbn;
+                    repeat (first [ rewrite str_from_1 by hd_solve | rewrite str_from_2 by hd_solve
+                                  | rewrite str_from_3 by hd_solve ]; cbn))).
+
+Definition not_err (i : Item) : bool := match i with IError => false | _ => true end.
+Definition row_model_ok (name : bytes) (e : entry) (m : bytes) : Prop :=
+  forall tl, head_ok tl = true ->
+  if row_is_err e m
+  then exists rm q, parse_next_item false [] (37 :: m ++ name ++ tl) = Val (Some (rm, IError), q)
+  else exists i0 q,
+         parse_next_item false [] (37 :: m ++ name ++ tl) = Val (Some (tl, i0), q) /\
+         norm_items (i0 :: q) = norm_items (map item_of_tok (row_toks tokens_simple e m)) /\
+         forallb not_err (i0 :: q) = true.
+
+Ltac row_model_tac :=
+  intros tl Htl;
+  match goal with
+  | |- if ?c then _ else _ => let b := eval vm_compute in c in change c with b; cbv beta iota
+  end;
+  do 2 eexists;
+  first [ split; [sf_step; reflexivity|split; vm_compute; reflexivity] | sf_step; reflexivity ].
+
+Lemma rows_model : Forall (fun ne => Forall (row_model_ok (fst ne) (snd ne)) modifiers) doc_table.
+Proof.
+  unfold doc_table, modifiers.
+  repeat (apply Forall_cons; [repeat (apply Forall_cons; [cbn [fst snd]; row_model_tac|]); apply Forall_nil|]).
+  apply Forall_nil.
+Qed.
